@@ -38,7 +38,7 @@ Example c18_ex :
   ref_connect (b "OK MPD " ++ [LF]) TEof = RConnInvalid /\
   ref_connect (b "OK MPX") TEof = RConnInvalid /\
   fst (connect (Blocking 3) (mkReader [b "OK M"; b "PD 1" ++ [LF] ++ b "OK" ++ [LF]] TEof)) =
-    Connected (b "1") (mkConn (Blocking 24) (b "OK" ++ [LF])).
+    Connected (b "1") (mkConn (Blocking 24) (b "OK" ++ [LF]) Initial).
 Proof. repeat split; vm_compute; reflexivity. Qed.
 
 Print Assumptions c18_valid.
